@@ -136,7 +136,24 @@ def run (j : Json) : R Json := do
       ("targets", ofList Json.bool (cps.map (checkTargets g))),
       ("gaindev", ofRats (cps.map (gainDev g))),
       ("upwindB", ofList ofRats upw),
+      ("exact", Json.bool (checkAll g)),
       ("Bdiag", ofList ofRats (cps.map (fun cp => (List.range (g.sd cp.prim).nf).map (fun f => cp.B f f))))])
+  | "setproj" =>
+    -- `MortarGrid._set_projections`: integrated projection = transpose of the averaged map
+    let n ← fNat j "n"
+    let ncols ← fNat j "ncols"
+    let ts ← field j "avg" >>= jList jTrip
+    if ts.any (fun (r, c, _) => r ≥ n || c ≥ ncols) then throw "avg index out of range"
+    let am := mapOf ts
+    let avg := look am
+    let pint := setProjInt avg
+    let dev := maxTo n (fun r => absR (rowSum ncols avg r - 1))
+    let keys := (ts.map (fun (r, c, _) => (c, r))).eraseDups
+    pure (obj [
+      ("rowdev", ofRat dev),
+      ("rowstochastic", Json.bool (allTo n (fun r => rowSum ncols avg r == 1))),
+      ("colsums", ofRats ((List.range n).map (fun m => colSum ncols pint m))),
+      ("int", ofList (fun (p : Nat × Nat) => Json.arr #[ofNat p.1, ofNat p.2, ofRat (pint p.1 p.2)]) keys)])
   | _ => throw s!"unknown op {op}"
 
 def main : IO Unit := runPure run
